@@ -38,6 +38,10 @@ def harness(tier, seed):
         pieces = []
         for _b in range(k):
             pieces += cut(rng, W, H, rng.randint(0, 4))
+        if rng.random() < 0.3:          # all sides share a factor: the square-cutting of the bound loses nothing
+            sc_ = rng.choice([2, 3])
+            W, H = W * sc_, H * sc_
+            pieces = [(w * sc_, h * sc_) for (w, h) in pieces]
         if rng.random() < 0.3:          # drop some pieces: waste, optimum may be smaller than k
             drop = rng.randint(0, len(pieces) - 1)
             pieces = pieces[drop:] if len(pieces) - drop >= 1 else pieces
